@@ -84,9 +84,14 @@ func TestC27(t *testing.T) {
 		noBody := method == "HEAD" || status/100 == 1 || status == 204 || status == 304
 		body := c27Body(rt)
 		slowClient := rapid.IntRange(0, 11).Draw(rt, "slow-client") == 0
+		if slowClient && flush != "c27f3" && rapid.Bool().Draw(rt, "slow-on-periodic-flush") {
+			// a slow client matters most where a periodic flusher runs beside the copy loop
+			flush = "c27f3"
+			target = fmt.Sprintf("/%s/%d", flush, n)
+		}
 		if slowClient {
 			// large enough to fill the loopback socket buffers while the client is not reading
-			big := rapid.SampledFrom([]int{300000, 1200000, 3000000}).Draw(rt, "bigbody")
+			big := rapid.SampledFrom([]int{300000, 1200000, 5000000}).Draw(rt, "bigbody")
 			body = bytes.Repeat(append(body, 'z'), big/(len(body)+1)+1)[:big]
 		}
 		ne2e := rapid.IntRange(0, 3).Draw(rt, "ne2e")
